@@ -141,7 +141,11 @@ Proof. intros Hz H. unfold scale_path_E, scale_path_ranged. rewrite Hz, H. refle
 (* a zero scale without exceptions: scale_error_i, the scale becomes 1, and then the range test is made with that 1 *)
 Lemma scale_path_zero_then_range_off p ec : range_ok 1 1 [p] = false ->
   scale_path_E false 0 0 p ec = Val (Some [], Z.lor (Z.lor ec 2) 64).
-Proof. intros H. unfold scale_path_E, scale_path_ranged. cbn [feqb orb bind do_error fix_zero]. vm_compute (fix_zero 0). rewrite H. reflexivity. Qed.
+Proof.
+  intros H. unfold scale_path_E.
+  change (feqb 0 0 || feqb 0 0) with true. change (fix_zero 0) with 1%float.
+  cbv iota. unfold do_error, bind, scale_path_ranged. rewrite H. reflexivity.
+Qed.
 
 Lemma lor64_nonzero ec : (Z.lor ec 64 =? 0) = false.
 Proof.
@@ -187,6 +191,12 @@ Proof.
   assert (B : Z.testbit (Z.lor (Z.lor a 64) k) 6 = true) by (rewrite !Z.lor_spec; cbn; rewrite orb_true_r; reflexivity).
   rewrite E in B. cbn in B. discriminate.
 Qed.
+
+Lemma lor64_bit6 a : Z.testbit (Z.lor a 64) 6 = true.
+Proof. rewrite Z.lor_spec. change (Z.testbit 64 6) with true. apply orb_true_r. Qed.
+
+Lemma lor_lor64_bit6 a k : Z.testbit (Z.lor (Z.lor a 64) k) 6 = true.
+Proof. rewrite Z.lor_spec, lor64_bit6. reflexivity. Qed.
 
 Section RangeReported.
   Variable pow10 : Z -> float.
@@ -289,8 +299,7 @@ Section RangeReported.
     - rewrite (scale_path_range_on _ _ _ 0 Hz2 Hr), (scale_path_range_off _ _ _ 0 Hz2 Hr). cbn [bind].
       split; [eexists; reflexivity|].
       destruct (scale_path_E_off_acc s s pth (Z.lor 0 64)) as [v [k E]]. rewrite E. cbn [bind].
-      rewrite lor_lor64_nonzero. cbn [negb]. eexists. split; [reflexivity|].
-      rewrite !Z.lor_spec. cbn. rewrite orb_true_r. reflexivity.
+      rewrite lor_lor64_nonzero. cbn [negb]. eexists. split; [reflexivity|]. apply lor_lor64_bit6.
     - split.
       + unfold scale_path_E at 1. rewrite Hz2. unfold scale_path_ranged at 1.
         destruct (range_ok s s [pat]); cbn [negb bind do_error].
@@ -298,7 +307,7 @@ Section RangeReported.
         * eexists; reflexivity.
       + destruct (scale_path_E_off_acc s s pat 0) as [v [k E]]. rewrite E. cbn [bind].
         rewrite (scale_path_range_off _ _ _ _ Hz2 Hr). cbn [bind]. rewrite lor64_nonzero. cbn [negb].
-        eexists. split; [reflexivity|]. rewrite !Z.lor_spec. cbn. rewrite orb_true_r. reflexivity.
+        eexists. split; [reflexivity|]. apply lor64_bit6.
   Qed.
 End RangeReported.
 
@@ -475,21 +484,24 @@ Proof. reflexivity. Qed.
 (* ====================================================================================================== *)
 (* C16: the shape of the wrappers on valid input *)
 
-Lemma scale_each_nonzero exc s ps ec : feqb s 0 = false ->
+Lemma scale_path_E_valid exc s p ec : feqb s 0 = false -> range_ok s s [p] = true ->
+  scale_path_E exc s s p ec = Val (scale_path s s p, ec).
+Proof. intros Hs Hr. unfold scale_path_E, scale_path_ranged. rewrite Hs, Hr. reflexivity. Qed.
+
+Lemma scale_each_nonzero exc s ps ec : feqb s 0 = false -> each_range_ok s s ps = true ->
   scale_each exc s s ps ec = Val (scale_paths_raw s s ps, ec).
 Proof.
-  intros Hs. revert ec. induction ps as [|p r IH]; intros ec; cbn [scale_each].
+  intros Hs. revert ec. induction ps as [|p r IH]; intros ec He; cbn [scale_each].
   - reflexivity.
-  - unfold scale_path_E at 1. rewrite Hs. cbn [orb bind]. rewrite IH. cbn [bind].
+  - unfold each_range_ok in He. cbn [forallb] in He. apply andb_true_iff in He. destruct He as [H1 H2].
+    rewrite (scale_path_E_valid exc s p ec Hs H1). cbn [bind]. rewrite (IH ec H2). cbn [bind].
     unfold scale_paths_raw. cbn [opt_map]. reflexivity.
 Qed.
 
-Lemma scale_paths_E_valid exc s ps ec : feqb s 0 = false -> range_ok s s ps = true ->
+(* ScalePaths on valid input: the test on the common bounds, then ScalePath's own test on every path *)
+Lemma scale_paths_E_valid exc s ps ec : feqb s 0 = false -> range_ok s s ps = true -> each_range_ok s s ps = true ->
   scale_paths_E exc s s ps ec = Val (scale_paths_raw s s ps, ec).
-Proof. intros Hs Hr. unfold scale_paths_E. rewrite Hr. cbn [negb]. apply scale_each_nonzero; exact Hs. Qed.
-
-Lemma scale_path_E_valid exc s p ec : feqb s 0 = false -> scale_path_E exc s s p ec = Val (scale_path s s p, ec).
-Proof. intros Hs. unfold scale_path_E. rewrite Hs. reflexivity. Qed.
+Proof. intros Hs Hr He. unfold scale_paths_E. rewrite Hr. cbn [negb]. apply scale_each_nonzero; assumption. Qed.
 
 Section Shape.
   Variable exc : bool.
@@ -502,32 +514,41 @@ Section Shape.
 
   Definition value_of_spec (o : option call64) : value := match o with Some c => VCall c | None => VUndef end.
 
+  (* "in range": ScalePaths' test on the common bounds and ScalePath's test on each path *)
+  Definition all_range_ok (s : float) (ps : fpaths) : bool := range_ok s s ps && each_range_ok s s ps.
+
+  Lemma all_range_ok_split s ps : all_range_ok s ps = true -> range_ok s s ps = true /\ each_range_ok s s ps = true.
+  Proof. unfold all_range_ok. intros H. apply andb_true_iff in H. exact H. Qed.
+
   Lemma clipperD_shape p S O C : - 8 <= p <= 8 ->
     let s := scaleD_spec p in
-    range_ok s s S = true -> range_ok s s O = true -> range_ok s s C = true ->
+    all_range_ok s S = true -> all_range_ok s O = true -> all_range_ok s C = true ->
     clipperD_run exc pow10 p true true true S O C = Val (0, value_of_spec (spec_call KPow2 p [S; O; C] None [])).
   Proof.
     intros Hp s HS HO HC. unfold clipperD_run, clipperD_ctor. rewrite (cpr_valid _ p 0 Hp). cbn [bind].
     rewrite (scaleD_model_ok p Hp). fold s.
     pose proof (good_scale_nonzero _ (scaleD_good p Hp)) as Hz. fold s in Hz.
-    rewrite (scale_paths_E_valid exc s S 0 Hz HS). cbn [bind].
-    rewrite (scale_paths_E_valid exc s O 0 Hz HO). cbn [bind].
-    rewrite (scale_paths_E_valid exc s C 0 Hz HC). cbn [bind].
+    destruct (all_range_ok_split _ _ HS) as [HS1 HS2]. destruct (all_range_ok_split _ _ HO) as [HO1 HO2].
+    destruct (all_range_ok_split _ _ HC) as [HC1 HC2].
+    rewrite (scale_paths_E_valid exc s S 0 Hz HS1 HS2). cbn [bind].
+    rewrite (scale_paths_E_valid exc s O 0 Hz HO1 HO2). cbn [bind].
+    rewrite (scale_paths_E_valid exc s C 0 Hz HC1 HC2). cbn [bind].
     unfold spec_call, spec_scale. fold s. cbn [opt_map map].
     destruct (scale_paths_raw s s S), (scale_paths_raw s s O), (scale_paths_raw s s C); reflexivity.
   Qed.
 
   Lemma booleanopD_shape p S C : - 8 <= p <= 8 ->
     let s := scaleD_spec p in
-    range_ok s s S = true -> range_ok s s C = true ->
+    all_range_ok s S = true -> all_range_ok s C = true ->
     booleanopD exc pow10 p S C = Val (0, value_of_spec (spec_call KPow2 p [S; []; C] None [])).
   Proof.
     intros Hp s HS HC. unfold booleanopD. rewrite (cpr_valid _ p 0 Hp). cbn [bind Z.eqb negb].
     unfold clipperD_run, clipperD_ctor. rewrite (cpr_valid _ p 0 Hp). cbn [bind].
     rewrite (scaleD_model_ok p Hp). fold s.
     pose proof (good_scale_nonzero _ (scaleD_good p Hp)) as Hz. fold s in Hz.
-    rewrite (scale_paths_E_valid exc s S 0 Hz HS). cbn [bind].
-    rewrite (scale_paths_E_valid exc s C 0 Hz HC). cbn [bind].
+    destruct (all_range_ok_split _ _ HS) as [HS1 HS2]. destruct (all_range_ok_split _ _ HC) as [HC1 HC2].
+    rewrite (scale_paths_E_valid exc s S 0 Hz HS1 HS2). cbn [bind].
+    rewrite (scale_paths_E_valid exc s C 0 Hz HC1 HC2). cbn [bind after_adds Z.eqb negb].
     unfold spec_call, spec_scale. fold s. cbn [opt_map map].
     change (scale_paths_raw s s []) with (@Some paths []).
     destruct (scale_paths_raw s s S), (scale_paths_raw s s C); reflexivity.
@@ -535,68 +556,76 @@ Section Shape.
 
   Lemma union1D_shape p S : - 8 <= p <= 8 ->
     let s := scaleD_spec p in
-    range_ok s s S = true ->
+    all_range_ok s S = true ->
     union1D exc pow10 p S = Val (0, value_of_spec (spec_call KPow2 p [S; []; []] None [])).
   Proof.
     intros Hp s HS. unfold union1D. rewrite (cpr_valid _ p 0 Hp). cbn [bind Z.eqb negb].
     unfold clipperD_run, clipperD_ctor. rewrite (cpr_valid _ p 0 Hp). cbn [bind].
     rewrite (scaleD_model_ok p Hp). fold s.
     pose proof (good_scale_nonzero _ (scaleD_good p Hp)) as Hz. fold s in Hz.
-    rewrite (scale_paths_E_valid exc s S 0 Hz HS). cbn [bind].
+    destruct (all_range_ok_split _ _ HS) as [HS1 HS2].
+    rewrite (scale_paths_E_valid exc s S 0 Hz HS1 HS2). cbn [bind after_adds Z.eqb negb].
     unfold spec_call, spec_scale. fold s. cbn [opt_map map].
     change (scale_paths_raw s s []) with (@Some paths []).
     destruct (scale_paths_raw s s S); reflexivity.
   Qed.
 
-  (* delta and arc_tolerance are multiplied by the same scale as the coordinates *)
-  Lemma inflateD_shape p ps delta arc : - 8 <= p <= 8 -> feqb delta 0 = false ->
+  (* delta and arc_tolerance are multiplied by the same scale as the coordinates; no special case for delta = 0 *)
+  Lemma inflateD_shape p ps delta arc : - 8 <= p <= 8 ->
     let s := pow10_spec p in
-    range_ok s s ps = true ->
+    all_range_ok s ps = true ->
     inflateD exc pow10 p ps delta arc = Val (0, value_of_spec (spec_call KDec p [ps] None [delta; arc])).
   Proof.
-    intros Hp Hd s Hr. unfold inflateD. rewrite (cpr_valid _ p 0 Hp). cbn [bind]. rewrite Hd. cbn [Z.eqb negb].
+    intros Hp s Hr. unfold inflateD. rewrite (cpr_valid _ p 0 Hp). cbn [bind Z.eqb negb].
     rewrite (pow10_ok p Hp). fold s.
     pose proof (good_scale_nonzero _ (pow10_good p Hp)) as Hz. fold s in Hz.
-    rewrite (scale_paths_E_valid exc s _ 0 Hz Hr). cbn [bind Z.eqb negb].
+    destruct (all_range_ok_split _ _ Hr) as [Hr1 Hr2].
+    rewrite (scale_paths_E_valid exc s _ 0 Hz Hr1 Hr2). cbn [bind Z.eqb negb].
     unfold spec_call, spec_scale. fold s. cbn [opt_map map]. unfold undef_or.
     destruct (scale_paths_raw s s ps); reflexivity.
   Qed.
 
   Lemma rectclipD_shape p r ps : - 8 <= p <= 8 -> rect_is_empty r = false -> ps <> [] ->
     let s := pow10_spec p in
-    range_ok s s ps = true ->
+    all_range_ok s ps = true ->
+    rect_range_ok s r = true ->
     scale_rect s r <> None ->
     rectclipD exc pow10 p r ps = Val (0, value_of_spec (spec_call KDec p [ps] (Some r) [])).
   Proof.
-    intros Hp Hre Hne s Hr Hrect. unfold rectclipD. rewrite Hre. destruct ps as [|p0 ps']; [contradiction|]. cbn [orb].
+    intros Hp Hre Hne s Hr Hrr Hrect. unfold rectclipD. rewrite Hre. destruct ps as [|p0 ps']; [contradiction|]. cbn [orb].
     rewrite (cpr_valid _ p 0 Hp). cbn [bind Z.eqb negb].
-    rewrite (pow10_ok p Hp). fold s.
+    rewrite (pow10_ok p Hp). fold s. rewrite Hrr. cbn [negb].
     pose proof (good_scale_nonzero _ (pow10_good p Hp)) as Hz. fold s in Hz.
     unfold spec_call, spec_scale. fold s.
     destruct (scale_rect s r) as [r64|] eqn:Er; [|contradiction].
-    rewrite (scale_paths_E_valid exc s _ 0 Hz Hr). cbn [bind Z.eqb negb opt_map map]. unfold undef_or.
+    destruct (all_range_ok_split _ _ Hr) as [Hr1 Hr2].
+    rewrite (scale_paths_E_valid exc s _ 0 Hz Hr1 Hr2). cbn [bind Z.eqb negb opt_map map]. unfold undef_or.
     destruct (scale_paths_raw s s (p0 :: ps')); reflexivity.
   Qed.
 
   Lemma trimcollinearD_shape p pth : - 8 <= p <= 8 ->
+    let s := pow10_spec p in
+    range_ok s s [pth] = true ->
     trimcollinearD exc pow10 p pth = Val (0, value_of_spec (spec_call KDec p [[pth]] None [])).
   Proof.
-    intros Hp. unfold trimcollinearD. rewrite (cpr_valid _ p 0 Hp). cbn [bind Z.eqb negb].
-    rewrite (pow10_ok p Hp). set (s := pow10_spec p).
+    intros Hp s Hr. unfold trimcollinearD. rewrite (cpr_valid _ p 0 Hp). cbn [bind Z.eqb negb].
+    rewrite (pow10_ok p Hp). fold s.
     pose proof (good_scale_nonzero _ (pow10_good p Hp)) as Hz. fold s in Hz.
-    rewrite (scale_path_E_valid exc s _ 0 Hz). cbn [bind Z.eqb negb].
+    rewrite (scale_path_E_valid exc s _ 0 Hz Hr). cbn [bind Z.eqb negb].
     unfold spec_call, spec_scale. fold s. cbn [opt_map map scale_paths_raw].
     destruct (scale_path s s pth); reflexivity.
   Qed.
 
   Lemma minkowskiD_shape p pat pth : - 8 <= p <= 8 ->
+    let s := pow10_spec p in
+    range_ok s s [pat] = true -> range_ok s s [pth] = true ->
     minkowskiD exc pow10 p pat pth = Val (0, value_of_spec (spec_call KDec p [[pat]; [pth]] None [])).
   Proof.
-    intros Hp. unfold minkowskiD.
-    rewrite (pow10_ok p Hp). set (s := pow10_spec p).
+    intros Hp s Hr1 Hr2. unfold minkowskiD. rewrite (cpr_valid _ p 0 Hp). cbn [bind Z.eqb negb].
+    rewrite (pow10_ok p Hp). fold s.
     pose proof (good_scale_nonzero _ (pow10_good p Hp)) as Hz. fold s in Hz.
-    rewrite (scale_path_E_valid exc s pat 0 Hz). cbn [bind].
-    rewrite (scale_path_E_valid exc s pth 0 Hz). cbn [bind].
+    rewrite (scale_path_E_valid exc s pat 0 Hz Hr1). cbn [bind].
+    rewrite (scale_path_E_valid exc s pth 0 Hz Hr2). cbn [bind Z.eqb negb].
     unfold spec_call, spec_scale. fold s. cbn [opt_map map scale_paths_raw].
     destruct (scale_path s s pat), (scale_path s s pth); reflexivity.
   Qed.
@@ -604,12 +633,9 @@ End Shape.
 
 (* the shape hypotheses are satisfiable *)
 Example shape_hyps_sat :
-  range_ok (scaleD_spec 2) (scaleD_spec 2) [sq] = true /\ range_ok (pow10_spec 2) (pow10_spec 2) [sq] = true /\
+  all_range_ok (scaleD_spec 2) [sq] = true /\ all_range_ok (pow10_spec 2) [sq] = true /\
+  range_ok (pow10_spec 2) (pow10_spec 2) [sq] = true /\ range_ok (pow10_spec 2) (pow10_spec 2) [tri] = true /\
   rect_is_empty (0%float, 0%float, 5%float, 5%float) = false /\
+  rect_range_ok (pow10_spec 2) (0%float, 0%float, 5%float, 5%float) = true /\
   scale_rect (pow10_spec 2) (0%float, 0%float, 5%float, 5%float) <> None.
 Proof. repeat split; try (vm_compute; reflexivity). vm_compute. discriminate. Qed.
-
-(* InflatePaths(PathsD) with delta = 0 returns its input, not the input rounded to the precision grid *)
-Lemma inflateD_delta0_returns_input exc pow10 p ps arc : - 8 <= p <= 8 ->
-  inflateD exc pow10 p ps 0 arc = Val (0, VInput).
-Proof. intros Hp. unfold inflateD. rewrite (cpr_valid _ p 0 Hp). reflexivity. Qed.
